@@ -694,6 +694,9 @@ func validateNextUpstream(nextUpstream string, fieldPath *field.Path) field.Erro
 	allParams := sets.Set[string]{}
 
 	params := strings.Fields(nextUpstream)
+	if len(params) == 0 {
+		return field.ErrorList{field.Invalid(fieldPath, nextUpstream, "must contain at least one parameter")}
+	}
 	for _, para := range params {
 		if !validNextUpstreamParams[para] {
 			allErrs = append(allErrs, field.Invalid(fieldPath, para, "not a valid parameter"))
